@@ -28,6 +28,12 @@ Theorem C14_bitmap_decode_result_wellformed : forall z len s,
 Proof. exact decode_inv. Qed.
 Print Assumptions C14_bitmap_decode_result_wellformed.
 
+(* every truncation of every valid encoding is reported as an error *)
+Theorem C14_bitmap_decode_truncated : forall s, bm_Inv s -> forall tl len,
+  len < N.of_nat (length (bm_encode s)) -> fst (bm_decode (bm_encode s ++ tl) len) = None.
+Proof. exact decode_truncated. Qed.
+Print Assumptions C14_bitmap_decode_truncated.
+
 (* non-vacuity: a 5-byte header announcing 3 array values is rejected when the
    declared length is 5 whatever follows in memory, and accepted with length 11 *)
 Example C14_bitmap_example :
